@@ -324,12 +324,30 @@ func c16DecodeMessage(c *boc.Cell, withHasher bool) (m Message, err error) {
 	return
 }
 
+// c16ErrCause: one sub-test per kind of unexpected decode error.
+func c16ErrCause(err error) string {
+	msg := "nil"
+	if err != nil {
+		msg = err.Error()
+	}
+	if len(msg) > 40 {
+		msg = msg[:40]
+	}
+	return "rc_unexpected_decode_error/" + strings.Trim(strings.Map(func(r rune) rune {
+		if (r >= 'a' && r <= 'z') || (r >= 'A' && r <= 'Z') || (r >= '0' && r <= '9') {
+			return r
+		}
+		return '_'
+	}, msg), "_")
+}
+
 func c16Hex(h Bits256) string { return fmt.Sprintf("%x", h[:]) }
 
 // ---- real data ----
 
 func TestVerifStandin_C16_Hashes(t *testing.T) {
 	stat := newVhStat("c16_hashes_realdata")
+	defer stat.print()
 	fails := newVhFailures("rc_tx_hash_is_not_the_source_cell", "rc_msg_hash_is_not_the_source_cell", "rc_library_hash_differs_from_reference",
 		"rc_hasher_and_plain_decoder_disagree", "rc_source_boc", "rc_normalized_hash_real_ext_in", "rc_hash_true_mutates_message")
 	defer debug.SetGCPercent(debug.SetGCPercent(400))
@@ -379,7 +397,8 @@ func TestVerifStandin_C16_Hashes(t *testing.T) {
 			c16Reset(cells)
 			var block Block
 			if err := dec(roots[0], &block); err != nil {
-				t.Fatalf("%s: %s(Block): %v", file, modeName, err)
+				fails.add("rc_block_decode", "%s: %s(Block): %v", file, modeName, err)
+				continue
 			}
 			var msgs []*Message
 			var txs []*Transaction
@@ -540,10 +559,9 @@ func TestVerifStandin_C16_Hashes(t *testing.T) {
 		fmt.Printf("C16-REALDATA %s=%d\n", k, counts[k])
 	}
 	if counts["transactions"] == 0 || counts["messages.IntMsgInfo"] == 0 {
-		t.Errorf("no transactions / messages found in the blocks under testdata")
+		fails.add("rc_no_records_found", "no transactions / messages found in the blocks under testdata")
 	}
 	fails.report(t)
-	stat.print()
 }
 
 // c16FirstDiff shows the first place where two dumps differ.
@@ -571,8 +589,9 @@ func c16Min(a, b int) int {
 func TestVerifStandin_C16_HashesSynthetic(t *testing.T) {
 	rng := vhRng()
 	stat := newVhStat("c16_hashes_synthetic")
+	defer stat.print()
 	fails := newVhFailures("rc_msg_hash_differs_from_cell_hash", "rc_hasher_and_plain_decoder_disagree", "rc_normalized_hash_not_invariant",
-		"rc_normalized_hash_differs_from_canonical", "rc_normalized_hash_collision", "rc_normalized_hash_ignores_anycast",
+		"rc_normalized_hash_differs_from_canonical", "rc_normalized_hash_collision", "rc_hash_true_strips_anycast_and_mutates_receiver",
 		"rc_hash_true_mutates_message", "rc_hash_true_of_other_kinds", "rc_tx_hash_differs_from_cell_hash", "rc_source_boc", "rc_unexpected_decode_error")
 	nMsgs, nBases, nTx := 300, 60, 40
 	if vhThorough() {
@@ -596,7 +615,7 @@ func TestVerifStandin_C16_HashesSynthetic(t *testing.T) {
 		for mode := 0; mode < 2; mode++ {
 			m, err := c16DecodeMessage(cell, mode == 1)
 			if err != nil {
-				fails.add("rc_unexpected_decode_error", "%s message %s (hasher=%v): %v", kind, vhTree(cell), mode == 1, err)
+				fails.add(c16ErrCause(err), "%s message %s (hasher=%v): %v", kind, vhTree(cell), mode == 1, err)
 				continue
 			}
 			if got := m.Hash(false); got != want {
@@ -618,7 +637,7 @@ func TestVerifStandin_C16_HashesSynthetic(t *testing.T) {
 				derr = fmt.Errorf("panic: %s", p)
 			}
 			if derr != nil {
-				fails.add("rc_unexpected_decode_error", "%s message as a reference %s: %v", kind, vhTree(parent), derr)
+				fails.add(c16ErrCause(derr), "%s message as a reference %s: %v", kind, vhTree(parent), derr)
 			} else if got := wrapped.Value.Hash(false); got != want {
 				fails.add("rc_msg_hash_differs_from_cell_hash", "%s message as a reference of %s (hasher=%v): Hash(false) = %s, cell hash %s", kind, vhTree(parent), mode == 1, c16Hex(got), c16Hex(want))
 			}
@@ -675,7 +694,7 @@ func TestVerifStandin_C16_HashesSynthetic(t *testing.T) {
 		for _, m := range ms {
 			wantKind := map[string]SumType{"internal": "IntMsgInfo", "external-in": "ExtInMsgInfo", "external-out": "ExtOutMsgInfo"}[kind]
 			if m.Info.SumType != wantKind {
-				fails.add("rc_unexpected_decode_error", "%s message %s decoded as %s", kind, vhTree(cell), m.Info.SumType)
+				fails.add("rc_message_kind_misdecoded", "%s message %s decoded as %s", kind, vhTree(cell), m.Info.SumType)
 			}
 			if kind != "external-in" {
 				m := m
@@ -701,7 +720,7 @@ func TestVerifStandin_C16_HashesSynthetic(t *testing.T) {
 		cause := "rc_normalized_hash_differs_from_canonical"
 		if anycast {
 			// the convention keeps dest as it is; a library that drops the anycast prefix reports here
-			cause = "rc_normalized_hash_ignores_anycast"
+			cause = "rc_hash_true_strips_anycast_and_mutates_receiver"
 		}
 		var first *Bits256
 		for v := 0; v < 12; v++ {
@@ -732,7 +751,7 @@ func TestVerifStandin_C16_HashesSynthetic(t *testing.T) {
 			for mode := 0; mode < 2; mode++ {
 				m, err := c16DecodeMessage(cell, mode == 1)
 				if err != nil {
-					fails.add("rc_unexpected_decode_error", "external-in message %s: %v", vhTree(cell), err)
+					fails.add(c16ErrCause(err), "external-in message %s: %v", vhTree(cell), err)
 					continue
 				}
 				before := vhDump(m)
@@ -748,7 +767,11 @@ func TestVerifStandin_C16_HashesSynthetic(t *testing.T) {
 					fails.add("rc_normalized_hash_not_invariant", "message %s: Hash(true) = %s, another message with the same dest and body gave %s", vhTree(cell), c16Hex(got), c16Hex(*first))
 				}
 				if after := vhDump(m); after != before || m.Hash(false) != plainBefore {
-					fails.add("rc_hash_true_mutates_message", "message %s (dest %s): the decoded value changed during Hash(true): %s", vhTree(cell), dest.kind, c16FirstDiff(before, after))
+					mcause := "rc_hash_true_mutates_message"
+					if anycast {
+						mcause = "rc_hash_true_strips_anycast_and_mutates_receiver"
+					}
+					fails.add(mcause, "message %s (dest %s): the decoded value changed during Hash(true): %s", vhTree(cell), dest.kind, c16FirstDiff(before, after))
 				}
 				if again := m.Hash(true); again != got {
 					fails.add("rc_normalized_hash_not_invariant", "message %s: second call of Hash(true) gives %s, first %s", vhTree(cell), c16Hex(again), c16Hex(got))
@@ -785,7 +808,7 @@ func TestVerifStandin_C16_HashesSynthetic(t *testing.T) {
 				stat.add("normalt|" + vhTree(cell))
 				m, err := c16DecodeMessage(cell, i%2 == 0)
 				if err != nil {
-					fails.add("rc_unexpected_decode_error", "external-in message %s: %v", vhTree(cell), err)
+					fails.add(c16ErrCause(err), "external-in message %s: %v", vhTree(cell), err)
 					continue
 				}
 				if m.Hash(true) == *first {
@@ -799,7 +822,7 @@ func TestVerifStandin_C16_HashesSynthetic(t *testing.T) {
 				if err == nil {
 					stat.add("normalt|" + vhTree(cell))
 					if m, err := c16DecodeMessage(cell, false); err == nil && m.Hash(true) == *first {
-						fails.add("rc_normalized_hash_ignores_anycast", "message %s (dest without anycast) has the same normalised hash %s as the message whose dest carries an anycast prefix (%s)", vhTree(cell), c16Hex(*first), vhBin2Hex(dest.bits))
+						fails.add("rc_hash_true_strips_anycast_and_mutates_receiver", "message %s (dest without anycast) has the same normalised hash %s as the message whose dest carries an anycast prefix (%s)", vhTree(cell), c16Hex(*first), vhBin2Hex(dest.bits))
 					}
 				}
 			}
@@ -840,7 +863,7 @@ func TestVerifStandin_C16_HashesSynthetic(t *testing.T) {
 				derr = fmt.Errorf("panic: %s", p)
 			}
 			if derr != nil {
-				fails.add("rc_unexpected_decode_error", "generated transaction (hasher=%v): %v: %s", mode == 1, derr, vhTree(cell))
+				fails.add(c16ErrCause(derr), "generated transaction (hasher=%v): %v: %s", mode == 1, derr, vhTree(cell))
 				continue
 			}
 			if tx.Hash() != want {
@@ -871,8 +894,7 @@ func TestVerifStandin_C16_HashesSynthetic(t *testing.T) {
 		}
 	}
 	if made == 0 {
-		t.Errorf("no transaction could be generated")
+		fails.add("rc_no_records_found", "no transaction could be generated")
 	}
 	fails.report(t)
-	stat.print()
 }
